@@ -130,6 +130,13 @@ extern struct bg_adj *bg_cur_adj;
 static inline void bg__rest_sub(bg_list *l, bg_size k, bg_size kup, bg_size kq, bg_size kp);
 static inline void bg__rest_add(bg_list *l, bg_bool isup, bg_bool isq, bg_bool isp);
 
+/* facts chosen at arrival: the value under the cursor belongs to a non-empty class */
+#define BG_IT_CUR_OK(it)                                                      \
+  ((it).r.len == 0 ||                                                         \
+   ((bg_size)(it).cur < (it).bound && (!BG_IS_P((it).cur) || (it).r.nP > 0) && \
+    (!BG_IS_Q((it).cur) || (it).r.nQ > 0) &&                                  \
+    (!((bg_size)(it).cur >= (it).idx) || (it).r.up > 0) &&                    \
+    (!((bg_size)(it).cur < (it).idx) || (it).r.len > (it).r.up)))
 static inline void bg__it_arrive(bg_it *it) {
   if (it->r.len > 0) {
     VertexIndex x = nondet_vertex();
@@ -784,7 +791,9 @@ static inline bg_vec_sz *bg_mat_sz__index(bg_mat_sz *a, bg_size i) {
   return &bg_scratch_vec_sz;
 }
 
-#define BG_SCRATCH_CLEAN (!bg_scratch_row.valid && bg_scratch_row.owner == 0 && bg_cur_adj == 0)
+#define BG_SCRATCH_CLEAN                                                      \
+  (!bg_scratch_row.valid && bg_scratch_row.owner == 0 && bg_cur_adj == 0 &&   \
+   bg_ghost_frontier.a == 0)
 #define BG_MAP_FRESH(m)                                                       \
   (__CPROVER_is_fresh((m).valPQ, sizeof(*(m).valPQ)) &&                       \
    __CPROVER_is_fresh((m).valQP, sizeof(*(m).valQP)))
@@ -795,6 +804,7 @@ static inline bg_vec_sz *bg_mat_sz__index(bg_mat_sz *a, bg_size i) {
 #define BG_CAT(a, b) BG_CAT_(a, b)
 static inline void bg_ghost_reset_all(void) {
   bg_ghost_scratch_reset();
+  bg_ghost_frontier.a = 0; /* a callee may change rows below the frontier */
   BG_CAT(bg_scratch_val_, BG_L).valid = 0;
 }
 
